@@ -209,9 +209,28 @@ impl From<&IPFix> for NetflowCommon {
 
         for flowset in &value.flowsets {
             if let IPFixFlowSetBody::Data(data) = &flowset.body {
+                // The parser emits one single-entry map per decoded field, keyed by the
+                // field's position in the template. Regroup them into records: a key
+                // that does not increase starts the next record.
+                let mut records: Vec<BTreeMap<IPFixField, FieldValue>> = vec![];
+                let mut last_key: Option<usize> = None;
                 for data_field in &data.fields {
-                    let value_map: BTreeMap<IPFixField, FieldValue> =
-                        data_field.values().cloned().collect();
+                    for (key, (field, value)) in data_field {
+                        let starts_record = match last_key {
+                            Some(last) => *key <= last,
+                            None => true,
+                        };
+                        if starts_record {
+                            records.push(BTreeMap::new());
+                        }
+                        if let Some(record) = records.last_mut() {
+                            record.insert(*field, value.clone());
+                        }
+                        last_key = Some(*key);
+                    }
+                }
+
+                for value_map in records {
                     flowsets.push(NetflowCommonFlowSet {
                         src_addr: value_map
                             .get(&IPFixField::SourceIpv4address)
